@@ -93,6 +93,7 @@ type Oracle struct {
 	dirDirty bool
 
 	ro     slot
+	roPath string // OS path of the object opened for reading ("" for virtual images)
 	roView View
 	roSect int64
 
@@ -109,7 +110,8 @@ type Oracle struct {
 	// Uploads maps OS paths of files created in this session to the concatenation of their payloads.
 	Uploads map[string][]byte
 
-	Closed bool // the model knows the server has closed the connection
+	ClosedEarlier bool // Closed was detected one request after the one that ended the connection
+	Closed        bool // the model knows the server has closed the connection
 	// Coverage of (state, opcode, outcome) triples.
 	Cover map[string]int
 	// Per request log (request, outcome) for replay files.
@@ -327,6 +329,7 @@ func (o *Oracle) Step(r wire.Req) *Fail {
 	}
 	if f != nil && mc && o.Closed && o.stepBytes == 0 && (f.Rule == "unexpected-close" || f.Rule == "short-response") {
 		o.cover(r.Op, "after-admissible-close")
+		o.ClosedEarlier = true // the connection had been ended by the previous request
 		return nil
 	}
 	return f
@@ -584,7 +587,7 @@ func (o *Oracle) stepOpen(r wire.Req) *Fail {
 			if got.Size != v.Size() {
 				return fail("open-size", "virtual-image", "OPEN %q announced size %d, want %d", r.Path, got.Size, v.Size())
 			}
-			o.ro, o.roView = sOpen, v
+			o.ro, o.roView, o.roPath = sOpen, v, ""
 			o.roSect = sectorSizeOf(v)
 			o.cover(r.Op, "virtual-image")
 			return nil
@@ -644,7 +647,7 @@ func (o *Oracle) stepOpen(r wire.Req) *Fail {
 			why = append(why, fmt.Sprintf("target %q: mtime %d want %d", t.os, got.Mtime, st.Mtim.Sec))
 			continue
 		}
-		o.ro, o.roView = sOpen, v
+		o.ro, o.roView, o.roPath = sOpen, v, t.os
 		o.roSect = sectorSizeOf(v)
 		o.cover(r.Op, pick(esc, "escape-clamped", v.Kind()))
 		return nil
@@ -1367,6 +1370,11 @@ func (o *Oracle) stepCreate(r wire.Req) *Fail {
 					return fail("create-effect", pick(st == nil, "new-file", "existing-file"), "CREATE %q answered 0 but %s is not an empty regular file afterwards (err=%v)", r.Path, t.os, err)
 				}
 				o.wo, o.woPath = sOpen, t.os
+				if o.ro == sOpen && t.os == o.roPath {
+					if _, plain := o.roView.(*PlainView); !plain {
+						o.ro = sFree // source of a transformed view rewritten underneath it
+					}
+				}
 				o.Uploads[t.os] = []byte{}
 				o.touched = append(o.touched, t.os)
 				o.markDirty(t.os)
@@ -1554,6 +1562,9 @@ func (o *Oracle) stepRemove(r wire.Req) *Fail {
 				return fail("remove-truth", "non-empty-dir", "%s %q removed non-empty directory", r.Op, r.Path)
 			}
 			if gone {
+				if o.ro == sOpen && t.os == o.roPath {
+					o.ro = sFree // the open handle now names an unlinked object
+				}
 				delete(o.Uploads, t.os)
 				o.touched = append(o.touched, t.os)
 				o.markDirty(t.os)
